@@ -1,4 +1,5 @@
 import Autobean.Proofs.Ownership
+import Autobean.Proofs.AutoClaim
 /-
 C14 — every block comment has at most one owner, chosen by the documented rules.
 
@@ -10,8 +11,7 @@ of repeated field `r`).  `owned d` lists the comment ids held by slots, with mul
 `OwnInv d` :=  token ids are distinct, a leading/trailing slot has one content, no comment id is held twice
 (`(owned d).Nodup`), and for every block comment of the store `claimed = true ↔ its id is held by a slot`.
 
-The theorems quantify over ALL documents and ALL call sequences with ALL arguments (the tree that decides which
-calls `auto_claim_comments` issues, with which first/last tokens, is not modelled: every possible choice is covered).
+The theorems of the first part quantify over ALL documents and ALL call sequences with ALL arguments.
 What is NOT proved here and is evaluated on the real code instead (exhaustive small layouts, `harness/props/c14.py`):
 that default parsing leaves no comment unowned, that attribution at parse time equals attribution later, and that the
 documented order (leading of the model below, else trailing of the model above, else standalone) is followed.
@@ -211,5 +211,383 @@ example : (findOuter (fun _ => true) 99 0
     [⟨1, .newline, "\n".toList, false⟩, ⟨2, .blockComment, ";a".toList, false⟩, ⟨3, .mark, [], false⟩,
      ⟨4, .blockComment, ";b".toList, true⟩, ⟨5, .newline, "\n".toList, false⟩, ⟨6, .blockComment, ";c".toList, false⟩]).map (·.id)
     = [2] := by decide
+
+/-! ### The tree walk of `auto_claim_comments` (`Model/AutoClaim.lean`)
+
+`autoClaimWalk d n` = `n.auto_claim_comments()` on document `d`: self leading, self trailing (both with
+`ignore_if_already_claimed=True`), then the public fields last to first; a repeated field = its entries last to first,
+then (if it is a `…_with_comments` field) `claim_interleaving_comments()` without argument.  `first_token` /
+`last_token` are read from the current slots at the moment of each call.  The tree `n` is static; everything the walk
+changes is in `d` (so "the same tree with the updated slots" is `n` with the resulting document). -/
+
+/-- `walk_own_inv`: the whole walk keeps the ownership invariant (by `own_inv` per call, induction over the tree). -/
+theorem walk_own_inv {d d' : Doc} {n : CNode} (hi : OwnInv d) (h : autoClaimWalk d n = .ok d') : OwnInv d' :=
+  autoClaimWalk_inv stepInv_ownInv hi h
+
+/-- `walk_visible` (the C04 side): the walk only moves placeholders and sets flags - same non-placeholder tokens in the
+same order, the store is a permutation; hence (placeholders being empty) the same visible tokens and the same text. -/
+theorem walk_visible {d d' : Doc} {n : CNode} (h : autoClaimWalk d n = .ok d') :
+    OnlyPhMoved d'.store d.store ∧
+    (PhEmpty d.store → (d'.store.filter visible).map Tk.key = (d.store.filter visible).map Tk.key ∧
+      textOf d'.store = textOf d.store) := by
+  have hm : OnlyPhMoved d'.store d.store :=
+    autoClaimWalk_inv (P := fun x => OnlyPhMoved x.store d.store) (stepInv_moved d.store) (OnlyPhMoved.refl _) h
+  exact ⟨hm, fun hp => ⟨hm.visible hp, hm.text hp⟩⟩
+
+/-- Every call the walk issues is one of those `auto_idempotent_partial` speaks about: a self-claim with
+`ignore_if_already_claimed=True` or an interleaving claim without a comment set. -/
+theorem walk_calls_auto {d : Doc} {n : CNode} {cs : List Call} (h : autoClaimCalls d n = .ok cs) :
+    ∀ c ∈ cs, c.isAuto = true := by
+  unfold autoClaimCalls at h
+  cases hw : walkNode d n with
+  | error e => simp [hw] at h
+  | ok p =>
+    obtain ⟨d1, cs1⟩ := p
+    simp only [hw] at h
+    cases h
+    exact walkNode_calls n hw
+
+/-- Once every block comment of the store is claimed, a walk over ANY tree changes nothing an observer can see: same
+store (order and flags), same leading/trailing slots, same entries of every repeated field (`Doc.obs` = the document
+without the cached spans of model entries). -/
+theorem walk_fixed_when_all_claimed {d d' : Doc} {n : CNode} (ha : AllClaimed d.store)
+    (h : autoClaimWalk d n = .ok d') : d'.obs = d.obs :=
+  autoClaimWalk_inv (P := fun x => x.obs = d.obs) (stepInv_fixed ha) rfl h
+
+/-- `walk_all_claimed_partial` ("default parsing leaves no comment unowned", File level): for a `File` root (one
+repeated field with interleaving comments, first/last token = the ends of the store), after the walk EVERY block
+comment of the store is claimed, because the final `claim_interleaving_comments()` of the File takes every still
+unclaimed comment between its placeholder and the end of the store.
+Hypothesis `fileLayoutOk d r ph items` (decidable; evaluated by the driver on every explored document and, independently,
+by the harness on the real objects right before the File's final claim), on the state `d1` reached after the directives'
+own walks: the File's placeholder is the first token of the store; the directives (with their leading/trailing comments
+at that moment) are laid out in order behind it; every block comment INSIDE a directive's span is claimed; behind the
+last directive there are only newlines, blanks, zero-width tokens and unclaimed block comments.
+Partial: that the directives' own walks leave no unclaimed comment inside a directive (the same argument one and two
+levels down, for the meta / postings fields) is part of the hypothesis, not proved. -/
+theorem walk_all_claimed_partial {d d' : Doc} {r ph : Nat} {items : CNodes} (hn : IdsNodup d.store)
+    (hlay : fileLayoutOk d r ph items = true) (h : autoClaimWalk d (fileRoot r ph items) = .ok d') :
+    AllClaimed d'.store := by
+  unfold fileLayoutOk at hlay
+  unfold autoClaimWalk fileRoot at h
+  rw [walkNode, walkFieldsRev, walkFieldsRev] at h
+  simp only [walkField, if_true] at h
+  cases h1 : walkNodesRev d items with
+  | error e => simp [h1] at hlay
+  | ok p1 =>
+    obtain ⟨d1, c1⟩ := p1
+    simp only [h1] at hlay h
+    have hn1 : IdsNodup d1.store :=
+      (walkNodesRev_inv (P := fun x => OnlyPhMoved x.store d.store) (stepInv_moved d.store) items
+        (OnlyPhMoved.refl _) h1).idsNodup hn
+    unfold walkInter at h
+    cases hr : refreshItems d1 items.toList (repItems r d1.reps) with
+    | error e => simp [hr] at hlay
+    | ok its =>
+      cases hs : d1.store with
+      | nil => simp [hr, hs] at hlay
+      | cons p post =>
+        simp only [hr, hs, Bool.and_eq_true, decide_eq_true_eq] at hlay
+        obtain ⟨⟨hp, hpk⟩, hc⟩ := hlay
+        simp only [hr] at h
+        cases hl : (p :: post).getLast? with
+        | none => simp at hl
+        | some lt =>
+          have hs2 : ({ d1 with reps := setRep r its d1.reps } : Doc).store = p :: post := hs
+          have hl2 : ({ d1 with reps := setRep r its d1.reps } : Doc).store.getLast? = some lt := by rw [hs2]; exact hl
+          rw [firstTok_file _ hs2, lastTok_file _ hl2] at h
+          simp only at h
+          cases hci : claimInter r ph p.id lt.id none { d1 with reps := setRep r its d1.reps } with
+          | error e => simp [hci] at h
+          | ok q =>
+            obtain ⟨d3, cs3⟩ := q
+            simp only [hci] at h
+            cases h
+            unfold claimInter at hci
+            simp only [repItems_setRep] at hci
+            rw [hs] at hci
+            cases hint : claimInterleaving ph its p.id lt.id none (p :: post) with
+            | error e => simp [hint] at hci
+            | ok o =>
+              simp only [hint] at hci
+              cases hci
+              exact claimInterleaving_cover (hs ▸ hn1) hp hpk (by simp [hl]) hc hint
+
+/-- `walk_idempotent_partial`: for a `File` root under the layout hypothesis of `walk_all_claimed_partial`, a second
+`auto_claim_comments()` claims nothing and moves nothing: same store (order and flags), same slots, same entries.
+General statement (not proved): `autoClaimWalk d n = .ok d' → autoClaimWalk d' n = .ok d'` for every tree under the
+structural invariant of DESIGN §3 - after a run every comment adjacent to a node boundary or inside a comment-bearing
+repeated region is claimed, so every later claim attempt finds no adjacent comment or a claimed one.
+Partial in two ways: (1) "everything is claimed after the first run" comes from `walk_all_claimed_partial` (File root,
+layout hypothesis); (2) that the second run is not REFUSED by the model (`"bad-span"`, `"not-in-store"`: the entries'
+spans are still laid out in order after placeholders moved) is the hypothesis `h2`; the driver reports it for every
+explored document (`again=same`). -/
+theorem walk_idempotent_partial {d d' d'' : Doc} {r ph : Nat} {items : CNodes} (hn : IdsNodup d.store)
+    (hlay : fileLayoutOk d r ph items = true) (h1 : autoClaimWalk d (fileRoot r ph items) = .ok d')
+    (h2 : autoClaimWalk d' (fileRoot r ph items) = .ok d'') : d''.obs = d'.obs :=
+  walk_fixed_when_all_claimed (walk_all_claimed_partial hn hlay h1) h2
+
+/-- `walk_keeps_owner`: the walk never takes a comment away from its owner - a filled leading slot, a filled trailing
+slot and a comment entry of a repeated field are still there, with the same comment, afterwards. -/
+theorem walk_keeps_owner {d d' : Doc} {n : CNode} (h : autoClaimWalk d n = .ok d') :
+    (∀ m c, lookup m d.leading = some c → lookup m d'.leading = some c) ∧
+    (∀ m c, lookup m d.trailing = some c → lookup m d'.trailing = some c) ∧
+    (∀ r c, c ∈ itemCommentIds (repItems r d.reps) → c ∈ itemCommentIds (repItems r d'.reps)) :=
+  ⟨fun m c hm => autoClaimWalk_inv (stepInv_leadingKept m c) hm h,
+   fun m c hm => autoClaimWalk_inv (stepInv_trailingKept m c) hm h,
+   fun r c hm => autoClaimWalk_inv (stepInv_entryKept r c) hm h⟩
+
+/-- `walk_entries_last_to_first`: the entries of a repeated field walk last to first - the model BELOW before the model
+ABOVE it (then, for a field with comments, the interleaving claim). -/
+theorem walk_entries_last_to_first {d d' : Doc} {a b : CNode} {ns : CNodes} {cs : List Call}
+    (h : walkNodesRev d (.cons a (.cons b ns)) = .ok (d', cs)) :
+    ∃ x y c1 c2 c3, walkNodesRev d ns = .ok (x, c1) ∧ walkNode x b = .ok (y, c2) ∧ walkNode y a = .ok (d', c3) ∧
+      cs = c1 ++ c2 ++ c3 := by
+  rw [walkNodesRev, walkNodesRev] at h
+  cases h1 : walkNodesRev d ns with
+  | error e => simp [h1] at h
+  | ok p1 =>
+    obtain ⟨x, c1⟩ := p1
+    simp only [h1] at h
+    cases h2 : walkNode x b with
+    | error e => simp [h2] at h
+    | ok p2 =>
+      obtain ⟨y, c2⟩ := p2
+      simp only [h2] at h
+      cases h3 : walkNode y a with
+      | error e => simp [h3] at h
+      | ok p3 =>
+        obtain ⟨z, c3⟩ := p3
+        simp only [h3] at h
+        cases h
+        exact ⟨x, y, c1, c2, c3, rfl, h2, h3, rfl⟩
+
+/-- `walk_leading_of_model_below` (the documented order, first clause, and why it wins over the second): a model whose
+first token stands directly below an unclaimed comment - one line break, placeholders anywhere in between - and which has
+no leading comment yet takes that comment as its LEADING comment when it walks; the model above walks afterwards
+(`walk_entries_last_to_first`) and cannot take it any more: the slot still holds it after that walk, and by the
+invariant (`own_unique`) no other slot does. -/
+theorem walk_leading_of_model_below {x y d' : Doc} {id : Nat} {fs : CFields} {above : CNode} {A P2 P1 B : List Tk}
+    {c nl st : Tk} {c2 c3 : List Call}
+    (hi : OwnInv x) (hslot : lookup id x.leading = none) (hfirst : firstOfFields x fs = some st.id)
+    (hlay : x.store = A ++ c :: (P2 ++ nl :: (P1 ++ st :: B)))
+    (hk : c.kind = .blockComment) (hcl : c.claimed = false) (hnl : nl.kind = .newline)
+    (hP1 : ∀ t ∈ P1, isPh t = true) (hP2 : ∀ t ∈ P2, isPh t = true)
+    (hb : walkNode x (.surround id fs) = .ok (y, c2)) (ha : walkNode y above = .ok (d', c3)) :
+    lookup id y.leading = some c.id ∧ lookup id d'.leading = some c.id ∧ OwnInv d' := by
+  have hy : lookup id y.leading = some c.id := by
+    rw [walkNode] at hb
+    cases h1 : walkSelf x id (.surround id fs) with
+    | error e => simp [h1] at hb
+    | ok p1 =>
+      obtain ⟨x2, cs1⟩ := p1
+      simp only [h1] at hb
+      cases h2 : walkFieldsRev x2 (.surround id fs) fs with
+      | error e => simp [h2] at hb
+      | ok p2 =>
+        obtain ⟨x3, cs2⟩ := p2
+        simp only [h2] at hb
+        cases hb
+        have hf : firstTok x (.surround id fs) = some st.id := by simp [firstTok, hslot, hfirst]
+        have := walkSelf_takes_leading hi.ids hslot hf hlay hk hcl hnl hP1 hP2 h1
+        exact walkFieldsRev_inv (stepInv_leadingKept id c.id) fs this h2
+  exact ⟨hy, walkNode_inv (stepInv_leadingKept id c.id) above hy ha,
+    walkNode_inv stepInv_ownInv above (walkNode_inv stepInv_ownInv _ hi hb) ha⟩
+
+/-- `walk_trailing_of_model_above` (the documented order, second clause): a model whose last token - read after its
+leading claim, as the real chain does - stands directly above a comment that is STILL unclaimed when the model walks
+(the model below has walked already and did not take it) and which has no trailing comment yet takes that comment as
+its TRAILING comment, and keeps it to the end of the walk of any later tree. -/
+theorem walk_trailing_of_model_above {x x1 y d' : Doc} {id f : Nat} {fs : CFields} {later : CNode} {r : Option Nat}
+    {A P1 P2 B : List Tk} {c nl st : Tk} {c2 c3 : List Call}
+    (hfirst : firstTok x (.surround id fs) = some f) (hlead : claimLeading id f true x = .ok (x1, r))
+    (hn : IdsNodup x1.store) (hslot : lookup id x1.trailing = none) (hlast : lastTok x1 (.surround id fs) = some st.id)
+    (hlay : x1.store = A ++ st :: (P1 ++ nl :: (P2 ++ c :: B)))
+    (hk : c.kind = .blockComment) (hcl : c.claimed = false) (hnl : nl.kind = .newline)
+    (hP1 : ∀ t ∈ P1, isPh t = true) (hP2 : ∀ t ∈ P2, isPh t = true)
+    (hb : walkNode x (.surround id fs) = .ok (y, c2)) (ha : walkNode y later = .ok (d', c3)) :
+    lookup id y.trailing = some c.id ∧ lookup id d'.trailing = some c.id := by
+  have hy : lookup id y.trailing = some c.id := by
+    rw [walkNode] at hb
+    cases h1 : walkSelf x id (.surround id fs) with
+    | error e => simp [h1] at hb
+    | ok p1 =>
+      obtain ⟨x2, cs1⟩ := p1
+      simp only [h1] at hb
+      cases h2 : walkFieldsRev x2 (.surround id fs) fs with
+      | error e => simp [h2] at hb
+      | ok p2 =>
+        obtain ⟨x3, cs2⟩ := p2
+        simp only [h2] at hb
+        cases hb
+        have := walkSelf_takes_trailing hfirst hlead hn hslot hlast hlay hk hcl hnl hP1 hP2 h1
+        exact walkFieldsRev_inv (stepInv_trailingKept id c.id) fs this h2
+  exact ⟨hy, walkNode_inv (stepInv_trailingKept id c.id) later hy ha⟩
+
+/-! ### Non-vacuity of the walk theorems
+
+```
+; top
+2000-01-01 *
+  ; ind
+  Assets:Foo
+; trail
+
+; alone
+```
+as the real parser lays it out (`auto_claim_comments=False`): token ids 1..24 in store order; 1 = placeholder of
+`File._directives`, 7 / 9 / 10 = placeholders of the transaction's tags-links / meta / postings, 17 = placeholder of the
+posting's meta, 8 / 16 = EOL marks, 18 = dedent mark. -/
+
+def wkStore : Store :=
+  [⟨1, .placeholder, [], false⟩, ⟨2, .blockComment, "; top".toList, false⟩, ⟨3, .newline, "\n".toList, false⟩,
+   ⟨4, .other, "2000-01-01".toList, false⟩, ⟨5, .whitespace, " ".toList, false⟩, ⟨6, .other, "*".toList, false⟩,
+   ⟨7, .placeholder, [], false⟩, ⟨8, .mark, [], false⟩, ⟨9, .placeholder, [], false⟩, ⟨10, .placeholder, [], false⟩,
+   ⟨11, .newline, "\n".toList, false⟩, ⟨12, .blockComment, "  ; ind".toList, false⟩, ⟨13, .newline, "\n".toList, false⟩,
+   ⟨14, .other, "  ".toList, false⟩, ⟨15, .other, "Assets:Foo".toList, false⟩, ⟨16, .mark, [], false⟩,
+   ⟨17, .placeholder, [], false⟩, ⟨18, .mark, [], false⟩, ⟨19, .newline, "\n".toList, false⟩,
+   ⟨20, .blockComment, "; trail".toList, false⟩, ⟨21, .newline, "\n".toList, false⟩, ⟨22, .newline, "\n".toList, false⟩,
+   ⟨23, .blockComment, "; alone".toList, false⟩, ⟨24, .newline, "\n".toList, false⟩]
+
+/-- the posting (node 28): indent, account, EOL, meta field (rep 29, placeholder 17, no entries) -/
+def wkPosting : CNode :=
+  .surround 28 (.cons (.plain (some (14, 14))) (.cons (.plain none) (.cons (.plain (some (15, 15)))
+    (.cons (.plain (some (16, 16))) (.cons (.rep 29 17 true .nil) .nil)))))
+
+/-- the transaction (node 25): date, flag, tags-links (rep 26, no comments), EOL, meta (rep 27), postings (rep 30),
+dedent mark -/
+def wkTxn : CNode :=
+  .surround 25 (.cons (.plain (some (4, 4))) (.cons (.plain (some (6, 6))) (.cons (.rep 26 7 false .nil)
+    (.cons (.plain (some (8, 8))) (.cons (.rep 27 9 true .nil) (.cons (.rep 30 10 true (.cons wkPosting .nil))
+    (.cons (.plain (some (18, 18))) .nil)))))))
+
+def wkFile : CNode := fileRoot 31 1 (.cons wkTxn .nil)
+
+def wkDoc : Doc :=
+  { store := wkStore, leading := [], trailing := [],
+    reps := [(31, [⟨0, 0, false⟩]), (26, []), (27, []), (30, [⟨0, 0, false⟩]), (29, [])] }
+
+/-- What the walk does: `; top` becomes the leading comment of the transaction, `; ind` the leading comment of the
+posting, `; trail` the trailing comment of the transaction, `; alone` a standalone entry of the File; nothing moves. -/
+example : (autoClaimWalk wkDoc wkFile).toOption.map (fun x => x.store.map (fun t => (t.id, t.claimed))) =
+    some [(1, false), (2, true), (3, false), (4, false), (5, false), (6, false), (7, false), (8, false), (9, false),
+          (10, false), (11, false), (12, true), (13, false), (14, false), (15, false), (16, false), (17, false),
+          (18, false), (19, false), (20, true), (21, false), (22, false), (23, true), (24, false)] := by decide +kernel
+example : (autoClaimWalk wkDoc wkFile).toOption.map (fun x => (x.leading, x.trailing)) =
+    some ([(28, 12), (25, 2)], [(25, 20)]) := by decide +kernel
+example : (autoClaimWalk wkDoc wkFile).toOption.map (fun x => x.reps.map (fun p => (p.1, itemKinds p.2))) =
+    some [(31, [none, some 23]), (26, []), (27, []), (30, [none]), (29, [])] := by decide +kernel
+
+/-- the calls, in the order the real code issues them (checked against the real trace by the harness) -/
+example : (autoClaimCalls wkDoc wkFile).toOption.map (fun cs => cs.map fun c =>
+      match c with
+      | .claimLeading n st _ => [0, n, st]
+      | .claimTrailing n st _ => [1, n, st]
+      | .claimInter r ph mf ml _ => [2, r, ph, mf, ml]
+      | _ => []) =
+    some [[0, 25, 4], [1, 25, 18], [0, 28, 14], [1, 28, 17], [2, 29, 17, 12, 17], [2, 30, 10, 2, 20], [2, 27, 9, 2, 20],
+          [2, 31, 1, 1, 24]] := by decide +kernel
+
+theorem wkDoc_inv : OwnInv wkDoc := by
+  refine ⟨by unfold IdsNodup; decide, by decide, by decide, by decide, ?_⟩
+  intro t ht hk
+  have : t.claimed = false ∧ owned wkDoc = [] := by
+    refine ⟨?_, by decide⟩
+    have hall : wkStore.all (fun t => !t.claimed) = true := by decide
+    simpa using List.all_eq_true.mp hall t ht
+  simp [this.1, this.2]
+
+/-- the hypotheses of `walk_all_claimed_partial` / `walk_idempotent_partial` hold on the concrete document … -/
+example : fileLayoutOk wkDoc 31 1 (.cons wkTxn .nil) = true := by decide +kernel
+
+/-- … so the theorems apply to it: invariant kept, every comment claimed, second run without effect. -/
+example : ∃ d', autoClaimWalk wkDoc wkFile = .ok d' ∧ OwnInv d' ∧ AllClaimed d'.store ∧
+    ∃ d'', autoClaimWalk d' wkFile = .ok d'' ∧ d''.obs = d'.obs := by
+  cases h : autoClaimWalk wkDoc wkFile with
+  | error e =>
+    have : (autoClaimWalk wkDoc wkFile).toOption.isSome = true := by decide +kernel
+    simp [h, Except.toOption] at this
+  | ok d' =>
+    have hn : IdsNodup wkDoc.store := wkDoc_inv.ids
+    have hlay : fileLayoutOk wkDoc 31 1 (.cons wkTxn .nil) = true := by decide +kernel
+    have ha := walk_all_claimed_partial hn hlay h
+    refine ⟨d', rfl, walk_own_inv wkDoc_inv h, ha, ?_⟩
+    cases h2 : autoClaimWalk d' wkFile with
+    | error e =>
+      have : ((autoClaimWalk wkDoc wkFile).toOption.bind fun x => (autoClaimWalk x wkFile).toOption).isSome = true := by
+        decide +kernel
+      simp [h, h2, Except.toOption] at this
+    | ok d'' => exact ⟨d'', rfl, walk_fixed_when_all_claimed ha h2⟩
+
+/-- `walk_leading_of_model_below` instantiated: the posting (first token 14) stands directly below `; ind` (12, line break
+13); it walks before the transaction above it does. -/
+example : ∀ y d' c2 c3, walkNode wkDoc wkPosting = .ok (y, c2) → walkNode y wkTxn = .ok (d', c3) →
+    lookup 28 d'.leading = some 12 := by
+  intro y d' c2 c3 hb ha
+  exact (walk_leading_of_model_below (A := wkStore.take 11) (P2 := []) (P1 := []) (B := wkStore.drop 14)
+    (c := ⟨12, .blockComment, "  ; ind".toList, false⟩) (nl := ⟨13, .newline, "\n".toList, false⟩)
+    (st := ⟨14, .other, "  ".toList, false⟩) wkDoc_inv (by decide) (by decide) (by decide) rfl rfl rfl
+    (by simp) (by simp) hb ha).2.1
+
+example : ((walkNode wkDoc wkPosting).toOption.bind fun p => (walkNode p.1 wkTxn).toOption).isSome = true := by
+  decide +kernel
+
+/-- `walk_trailing_of_model_above` instantiated: the transaction first claims `; top` as its leading comment (`wkX1`);
+its last token is then the dedent mark 18, directly above `; trail` (20, line break 19), which nobody has claimed. -/
+def wkX1 : Doc := { wkDoc with store := setFlags [2] true wkStore, leading := [(25, 2)] }
+
+example : ∀ y d' c2 c3, walkNode wkDoc wkTxn = .ok (y, c2) → walkNode y (fileRoot 99 1 .nil) = .ok (d', c3) →
+    lookup 25 d'.trailing = some 20 := by
+  intro y d' c2 c3 hb ha
+  have hx1 : IdsNodup wkX1.store := by
+    have : wkX1.store.map (·.id) = wkStore.map (·.id) := setFlags_ids _ _ _
+    unfold IdsNodup; rw [this]; decide
+  have hlead : claimLeading 25 4 true wkDoc = .ok (wkX1, some 2) := by rfl
+  exact (walk_trailing_of_model_above (x1 := wkX1) (A := wkX1.store.take 17) (P1 := []) (P2 := []) (B := wkX1.store.drop 20)
+    (c := ⟨20, .blockComment, "; trail".toList, false⟩) (nl := ⟨19, .newline, "\n".toList, false⟩)
+    (st := ⟨18, .mark, [], false⟩) (by decide) hlead hx1 (by decide) (by decide) (by decide) rfl rfl rfl
+    (by simp) (by simp) hb ha).2
+
+/-- A walk that MOVES a placeholder: `2000-01-01 *` / `  aa: 1` / `  ; c` / `  Assets:Foo` after the meta item had claimed
+`; c` as its trailing comment (which spliced the placeholder 14 of the postings field behind the comment) and
+unclaimed it again.  The posting now claims `; c` as its leading comment walking backwards over that placeholder,
+which is spliced in front of the comment. -/
+def wkStore2 : Store :=
+  [⟨1, .placeholder, [], false⟩, ⟨2, .other, "2000-01-01".toList, false⟩, ⟨3, .whitespace, " ".toList, false⟩,
+   ⟨4, .other, "*".toList, false⟩, ⟨5, .placeholder, [], false⟩, ⟨6, .mark, [], false⟩, ⟨7, .placeholder, [], false⟩,
+   ⟨8, .newline, "\n".toList, false⟩, ⟨9, .other, "  ".toList, false⟩, ⟨10, .other, "aa:".toList, false⟩,
+   ⟨11, .whitespace, " ".toList, false⟩, ⟨12, .other, "1".toList, false⟩, ⟨13, .mark, [], false⟩,
+   ⟨15, .newline, "\n".toList, false⟩, ⟨16, .blockComment, "  ; c".toList, false⟩, ⟨14, .placeholder, [], false⟩,
+   ⟨17, .newline, "\n".toList, false⟩, ⟨18, .other, "  ".toList, false⟩, ⟨19, .other, "Assets:Foo".toList, false⟩,
+   ⟨20, .mark, [], false⟩, ⟨21, .placeholder, [], false⟩, ⟨22, .mark, [], false⟩, ⟨23, .newline, "\n".toList, false⟩]
+
+def wkMeta2 : CNode :=
+  .surround 26 (.cons (.plain (some (9, 9))) (.cons (.plain (some (10, 10))) (.cons (.plain (some (12, 12)))
+    (.cons (.plain none) (.cons (.plain (some (13, 13))) .nil)))))
+
+def wkPosting2 : CNode :=
+  .surround 28 (.cons (.plain (some (18, 18))) (.cons (.plain (some (19, 19))) (.cons (.plain (some (20, 20)))
+    (.cons (.rep 29 21 true .nil) .nil))))
+
+def wkFile2 : CNode :=
+  fileRoot 31 1 (.cons (.surround 24 (.cons (.plain (some (2, 2))) (.cons (.plain (some (4, 4)))
+    (.cons (.rep 25 5 false .nil) (.cons (.plain (some (6, 6))) (.cons (.rep 27 7 true (.cons wkMeta2 .nil))
+    (.cons (.rep 30 14 true (.cons wkPosting2 .nil)) (.cons (.plain (some (22, 22))) .nil)))))))) .nil)
+
+def wkDoc2 : Doc :=
+  { store := wkStore2, leading := [], trailing := [],
+    reps := [(31, [⟨0, 0, false⟩]), (25, []), (27, [⟨0, 0, false⟩]), (30, [⟨0, 0, false⟩]), (29, [])] }
+
+example : (autoClaimWalk wkDoc2 wkFile2).toOption.map (fun x => ((x.store.map (·.id)).drop 12, x.leading ++ x.trailing)) =
+    some ([13, 15, 14, 16, 17, 18, 19, 20, 21, 22, 23], [(28, 16)]) := by decide +kernel
+
+/-- … and by `walk_visible` the text is what it was. -/
+example : ∀ d', autoClaimWalk wkDoc2 wkFile2 = .ok d' → textOf d'.store = textOf wkDoc2.store := by
+  intro d' h
+  refine ((walk_visible h).2 ?_).2
+  intro t ht hp
+  have hall : wkStore2.all (fun t => !isPh t || t.text.isEmpty) = true := by decide
+  have := List.all_eq_true.mp hall t ht
+  simpa [hp] using this
 
 end Autobean.C14
